@@ -258,6 +258,82 @@ fn exec_line(f: &[&str]) -> String {
     out.trim_start().to_string()
 }
 
+/// compile, run, re-register every helper id with the next pool function, compile again, run again
+fn rebind_line(f: &[&str]) -> String {
+    let vm = f[1];
+    let d: usize = f[2].parse().unwrap_or(0);
+    let e: usize = f[3].parse().unwrap_or(8);
+    let pmod: usize = f[4].parse().unwrap_or(0);
+    let mmod: usize = f[5].parse().unwrap_or(0);
+    let prog: &'static [u8] = Box::leak(unhex(f[7]).into_boxed_slice());
+    let pkt = unhex(f[8]);
+    let mbuff = unhex(f[9]);
+    let helpers: Vec<(u32, u8)> = f.get(12).and_then(|x| x.strip_prefix("h:")).map(|spec| parse_pairs(spec).into_iter().map(|(id, p)| (id as u32, p as u8)).collect()).unwrap_or_default();
+    let mut pb = Buf::new(&pkt, pmod);
+    let mut mb = Buf::new(&mbuff, mmod);
+    let paddr = pb.slice().as_ptr() as u64;
+    if vm == "mbuff" {
+        let m = mb.slice();
+        if d + 8 <= m.len() {
+            m[d..d + 8].copy_from_slice(&paddr.to_le_bytes());
+        }
+        if e + 8 <= m.len() {
+            m[e..e + 8].copy_from_slice(&(paddr + pkt.len() as u64).to_le_bytes());
+        }
+    }
+    rbpf::verif_hooks::set_insn_budget(u64::MAX);
+    let r: Option<(u32, u64)> = caught(std::panic::AssertUnwindSafe(|| {
+        macro_rules! go {
+            ($vmv:expr, $jit:expr) => {{
+                let mut vals = [0u64; 2];
+                for round in 0..2u8 {
+                    for (id, p) in &helpers {
+                        if $vmv.register_helper(*id, POOL[((*p + round) % 8) as usize]).is_err() {
+                            return (3, 0);
+                        }
+                    }
+                    // a second region for the second compilation
+                    let mem: &'static mut [u8] = if round == 0 { exec_memory() } else { placed_exec_memory("n0") };
+                    if $vmv.set_jit_exec_memory(mem).is_err() {
+                        return (6, round as u64);
+                    }
+                    if $vmv.jit_compile().is_err() {
+                        return (4, round as u64);
+                    }
+                    match unsafe { $jit } {
+                        Ok(v) => vals[round as usize] = v,
+                        Err(_) => return (5, round as u64),
+                    }
+                }
+                (1, vals[0].wrapping_mul(0x9e37_79b9_7f4a_7c15) ^ vals[1])
+            }};
+        }
+        match vm {
+            "nodata" => {
+                let Ok(mut v) = rbpf::EbpfVmNoData::new(Some(prog)) else { return (2, 0) };
+                go!(v, v.execute_program_jit())
+            }
+            "raw" => {
+                let Ok(mut v) = rbpf::EbpfVmRaw::new(Some(prog)) else { return (2, 0) };
+                go!(v, v.execute_program_jit(pb.slice()))
+            }
+            "mbuff" => {
+                let Ok(mut v) = rbpf::EbpfVmMbuff::new(Some(prog)) else { return (2, 0) };
+                go!(v, v.execute_program_jit(pb.slice(), mb.slice()))
+            }
+            _ => {
+                let Ok(mut v) = rbpf::EbpfVmFixedMbuff::new(Some(prog), d, e) else { return (2, 0) };
+                go!(v, v.execute_program_jit(pb.slice()))
+            }
+        }
+    }));
+    match r {
+        None => "r:panic".to_string(),
+        Some((1, v)) => format!("r:ok,{v:x}"),
+        Some((code, at)) => format!("r:err{code},{at}"),
+    }
+}
+
 fn main() {
     std::panic::set_hook(Box::new(|_| {}));
     let stdin = std::io::stdin();
@@ -294,6 +370,7 @@ fn main() {
                 }
             }
             "X" => exec_line(&f),
+            "R" => rebind_line(&f),
             _ => "?".to_string(),
         };
         let _ = writeln!(out, "{res}");
